@@ -106,8 +106,8 @@ Proof.
   apply bind_mono; [apply do_assign_mono|]. intros; apply IH.
 Qed.
 
-Lemma run_defers_mono : forall ds s first,
-  le_res (run_defers f ds s first) (run_defers g ds s first).
+Lemma run_defers_mono fid : forall ds s first,
+  le_res (run_defers f fid ds s first) (run_defers g fid ds s first).
 Proof.
   induction ds as [|[a v|c] r IH]; intros s first; simpl.
   - apply le_res_refl.
@@ -323,7 +323,7 @@ Lemma flow_exceptions_caught_at run :
      call_block run body s1 = (s2, Exc KContinue p) ->
      step run (TWhile cond body els it) s = run (TWhile cond body els true) s2)
   /\ (forall body cenv isfn s s3 p,
-     run (TChunk body) (set_frame s cenv [] true) = (s3, Exc KReturn p) ->
+     run (TChunk body) (enter_frame (set_frame s cenv [] true)) = (s3, Exc KReturn p) ->
      st_defers s3 = [] ->
      snd (call_closure run [] None [] body cenv isfn [] [] s)
      = if isfn then Done [] else Exc KReturn p)
@@ -355,13 +355,14 @@ Lemma scoping_lexical run args rest opts body cenv isfn vals sopts s vals' obs :
   exists s1 e1,
     alloc_all s (combine args vals' ++ obs) cenv = (s1, e1)
     /\ call_closure run args rest opts body cenv isfn vals sopts s
-       = settle (run (TChunk body) (set_frame s1 e1 [] true)) (fun s3 o =>
+       = settle (run (TChunk body) (enter_frame (set_frame s1 e1 [] true))) (fun s3 o =>
            let o1 := match o with
                      | Exc KReturn _ => if isfn then Done [] else o
                      | _ => norm o
                      end in
-           settle (run_defers run (st_defers s3) (set_defers s3 []) None) (fun s4 o' =>
-             (set_frame s4 (st_env s) (st_defers s) (st_infn s),
+           settle (run_defers run (g_next (st_ghost s1)) (st_defers s3) (set_defers s3 []) None) (fun s4 o' =>
+             (leave_frame (set_frame s4 (st_env s) (st_defers s) (st_infn s))
+                          (g_next (st_ghost s1)) (g_frame (st_ghost s)),
               match o1 with Done _ => norm o' | _ => o1 end))).
 Proof.
   intros Hd Hb. destruct (alloc_all s (combine args vals' ++ obs) cenv) as [s1 e1] eqn:E.
